@@ -20,7 +20,7 @@ ASSUMPTIONS = ["'never iterates forever' is decided in its bounded form: a solve
                "stopping-ness and absorbing finals are decided by the oracle's MEC test, never assumed from the generator"]
 TIMEOUT = 1800
 TABLE = [("G-DEAD", 900), ("G-CYC", 600), ("G-SLOW", 150), ("G-ACY", 500), ("G-LEX", 200), ("G-TIE", 150), ("G-TINY", 200),
-         ("G-CUT", 300), ("G-TINYB", 300), ("G-INIT0F", 200)]
+         ("G-CUT", 300), ("G-TINYB", 300), ("G-INIT0F", 200), ("G-NOREACH", 200), ("G-ACYNF", 200), ("G-CYCNF", 150), ("G-INIT0NF", 100)]
 
 
 def gen_cut(rng):
@@ -58,6 +58,8 @@ def decide(gd, idx, cls):
     an = analysis.Analysis(gd)
     res = {"idx": idx, "verdict": "held", "stats": {}, "tags": [cls], "key": games.canon_key(gd)}
     try:
+        if an.stopping and not an.finals_absorbing:
+            return decide_split_only(gd, idx, cls, an)
         if not (an.stopping and an.finals_absorbing):
             return sc.skipped(idx, "not a stopping game with absorbing finals")
         tmax = float(an.tmax_solve)
@@ -119,7 +121,10 @@ def decide(gd, idx, cls):
                 rmax = float(an.rmax_solve(prune))
             except OracleInconclusive:
                 rmax = None
-            if rmax is not None and d.get("max_expected_rewards", 0) > 2 * rmax + 1:
+            if d.get("all_quiet"):
+                problems.append({"mode": mode, "problem": "solver does not terminate: the %s iteration keeps running although no tracked quantity changes by more than the threshold any more"
+                                 % d.get("phase"), "diag": d})
+            elif rmax is not None and d.get("max_expected_rewards", 0) > 2 * rmax + 1:
                 problems.append({"mode": mode, "problem": "solver does not terminate: value iteration diverges (value %.3g above 2*R_max+1=%.3g after the step budget)"
                                  % (d.get("max_expected_rewards"), 2 * rmax + 1), "diag": d})
             elif rmax is not None and d.get("max_aux", 0) > 2 * rmax + 1:
@@ -135,6 +140,38 @@ def decide(gd, idx, cls):
                    witness=known[:2], case={"game": games.enc_game(gd)})
     if idx % 101 == 0 and n <= 9:
         res["sample"] = {"class": cls, "game": games.to_solver(gd), "exact_value_of_state_0": str(v[0]), "solvable": solvable}
+    return res
+
+
+def decide_split_only(gd, idx, cls, an):
+    """Games whose final states are not all absorbing are outside the property's definition of a stopping game as far as the
+    reward iteration is concerned (conditioning may legitimately leave a rewarded self-loop on a final state).  The clauses that do
+    not depend on that are still judged: 'no solution' exactly when the initial value is 0, and no other error."""
+    res = {"idx": idx, "verdict": "held", "stats": {"split_only_games": 1}, "tags": [cls, "split-only"], "key": games.canon_key(gd), "nontrivial": True}
+    try:
+        W = an.W
+        v = an.reach["v"]
+        limit = monitors.step_limit(an.n, games.n_transitions(gd), max(an.tmax))
+    except OracleInconclusive as e:
+        res.update(verdict="inconclusive", what="oracle: " + str(e))
+        return res
+    problems = []
+    for prune in (True, False):
+        out = monitors.observed_solve(games.to_solver(gd), prune, limit)
+        mode = "prune" if prune else "no-prune"
+        if out.status == "nosol":
+            if not prune:
+                problems.append({"mode": mode, "problem": "'no solution' raised with pruning off"})
+            elif 0 in W and float(v[0]) > analysis.DELTA * max(float(an.tmax[0]), 1.0) + 1e-9:
+                problems.append({"mode": mode, "problem": "'no solution' raised although the initial state's value is positive", "value": str(v[0])})
+        elif out.status == "ok" and prune and 0 not in W:
+            problems.append({"mode": mode, "problem": "game solved although the initial state's reachability value is 0"})
+        elif out.status in ("valueerror", "exception"):
+            problems.append({"mode": mode, "problem": "solve failed with %s: %s" % (out.exc, out.msg)})
+        elif out.status == "budget":
+            res["stats"]["split_only_budget_not_judged"] = res["stats"].get("split_only_budget_not_judged", 0) + 1
+    if problems:
+        res.update(verdict="violated", what="%s (%s)" % (problems[0]["problem"], problems[0]["mode"]), witness=problems[:3], case={"game": games.enc_game(gd)})
     return res
 
 
